@@ -71,6 +71,8 @@ class Ctx:
         self.trusted_base: list[str] = []
         self.t0 = time.time()
         self.only = only
+        self._only_rules = None  # sub-context of include(): record only these rules
+        self._filter = None
 
     # -- obligations -------------------------------------------------------------
     def rule(self, rule: str, doc: str):
@@ -79,6 +81,8 @@ class Ctx:
 
     def ob(self, rule, construct, ok, message="", witness=None, where=None, sample=None):
         """Record one decided obligation.  ok: True (held) / False (violated)."""
+        if self._only_rules is not None and (rule not in self._only_rules or (self._filter is not None and not self._filter(rule, construct))):
+            return ok
         c = self.rule_counts.setdefault(rule, [0, 0])
         c[0] += 1
         self.constructs.add(f"{rule}::{construct}")
@@ -97,7 +101,40 @@ class Ctx:
         """An obligation that was decided on the pinned tree can no longer be decided."""
         raise AnalysisError(f"UNDECIDED {rule} {construct}: {reason}")
 
+    def include(self, run_fn, mapping: dict, why: str, construct_filter=None):
+        """Apply rules that another property's check implements to this property as well.
+
+        run_fn is the other check's run(ctx); mapping {its rule: name under this property}; construct_filter(rule, construct)
+        restricts the instances.  The other check runs on a scratch context that records only the mapped rules (its anchors
+        are skipped: they guard its own claims); obligations, findings and samples are copied under the new names, so a
+        known finding has to be listed under the new key to be suppressed here."""
+        sub = Ctx(self.prop_id, self.tier)
+        sub.repo, sub.src = self.repo, self.src
+        sub._only_rules = set(mapping)
+        sub._filter = construct_filter
+        run_fn(sub)
+        for old, new in mapping.items():
+            self.rule(new, f"{sub.rule_doc.get(old, old)}  [rule {old}, applied to this property because {why}]")
+            cnt = sub.rule_counts.get(old, [0, 0])
+            mine = self.rule_counts.setdefault(new, [0, 0])
+            mine[0] += cnt[0]
+            mine[1] += cnt[1]
+        for f in sub.findings:
+            if f.rule in mapping:
+                self.findings.append(Finding(mapping[f.rule], f.construct, f.message, f.witness, f.where))
+        for c in sub.constructs:
+            r, _, rest = c.partition("::")
+            if r in mapping:
+                self.constructs.add(f"{mapping[r]}::{rest}")
+        for smp in sub.samples:
+            if smp.get("rule") in mapping and self.sample_rules.get(mapping[smp["rule"]], 0) < 1:
+                self.sample_rules[mapping[smp["rule"]]] = 1
+                self.samples.append(dict(smp, rule=mapping[smp["rule"]]))
+        return {new: list(self.rule_counts[new]) for new in mapping.values()}
+
     def anchor(self, name: str, found: int, minimum: int):
+        if self._only_rules is not None:
+            return
         self.anchors[name] = {"found": found, "minimum": minimum}
         if found < minimum:
             raise AnalysisError(
